@@ -6,6 +6,7 @@ Oracle: every output file byte-identical to the `-j 1` run and equal Statistics,
 in the thorough tier) and for real multi-process runs; `Statistics.__iadd__` merges compared over orders and groupings."""
 import copy
 import hashlib
+import os
 import itertools
 import time
 
@@ -442,14 +443,15 @@ def run(ctx):
                 "(--buffer-size) x 2-4 workers x random schedules of the unmodified runners.py on a deterministic fake multiprocessing, each trace "
                 "replayed through the Lean transition system and compared byte-wise with -j 1; real multi-process runs; Statistics merges in all "
                 "orders/groupings; non-trivial = distinct action trace in which >= 2 workers each processed a chunk (or a real run / merge with >= 2 chunks / adapters)")
-    random_schedules(ctx, ctx.scale(700, 8000), ctx.scale(40, 900))
-    systematic(ctx, 2, 3, ctx.scale(5, 90), fine="por")
+    random_schedules(ctx, ctx.scale(1500, 10000), ctx.scale(45, 1200))
+    systematic(ctx, 2, 3, ctx.scale(8, 120), fine="por")
     if ctx.tier == "thorough":
-        systematic(ctx, 3, 2, 90, fine="por")
+        # exhausts in about 10 minutes (75842 schedules); VERIF_DFS_BUDGET (seconds) overrides
+        systematic(ctx, 3, 2, int(os.environ.get("VERIF_DFS_BUDGET", "900")), fine="por")
         systematic(ctx, 2, 3, 30, fine=True)
         systematic(ctx, 3, 2, 30, fine=True)
-    real_runs(ctx, ctx.scale(24, 400), ctx.scale(15, 600))
-    stats_merge(ctx, ctx.scale(12, 150))
+    real_runs(ctx, ctx.scale(40, 600), ctx.scale(15, 600))
+    stats_merge(ctx, ctx.scale(20, 200))
 
 
 def extended_search(ctx):
